@@ -372,7 +372,8 @@ pub fn gen_ring_cfg(rng: &mut Rng, with_apps: bool, small_hsa_bias: bool) -> Rin
         }
         1 => {
             class = "station-at-hsa-1";
-            hsa = (n as u8 + 1 + rng.below((hsa_cap - n as u8 - 1).max(1) as u64) as u8).min(126);
+            // (the extreme, a station at 125 below the default HSA of 126, in a third of the large cases)
+            hsa = if hsa_cap == 126 && rng.chance(1, 3) { 126 } else { (n as u8 + 1 + rng.below((hsa_cap - n as u8 - 1).max(1) as u64) as u8).min(126) };
             addrs.insert(hsa - 1);
             while addrs.len() < n {
                 addrs.insert(rng.below(hsa as u64) as u8);
@@ -389,7 +390,7 @@ pub fn gen_ring_cfg(rng: &mut Rng, with_apps: bool, small_hsa_bias: bool) -> Rin
         3 => {
             class = "wrap-around-pair";
             // one station at 0 and one at hsa-1: the GAP of the highest wraps
-            hsa = (n as u8 + 2 + rng.below((hsa_cap - n as u8 - 2).max(1) as u64) as u8).min(126);
+            hsa = if hsa_cap == 126 && rng.chance(1, 3) { 126 } else { (n as u8 + 2 + rng.below((hsa_cap - n as u8 - 2).max(1) as u64) as u8).min(126) };
             addrs.insert(0);
             addrs.insert(hsa - 1);
             while addrs.len() < n {
@@ -1138,7 +1139,8 @@ fn ring_fp(run: &RingRun) -> u64 {
 
 pub fn ring_case(rep: &mut Report, seed: u64, idx: u64, prop: &str, verbose: bool) {
     let mut rng = Rng::derive(seed, "ring", idx);
-    let with_apps = prop == "C13";
+    // C01 quantifies over all application loads: every other case runs with traffic generators
+    let with_apps = prop == "C13" || (prop == "C01" && idx % 2 == 1);
     let cfg = gen_ring_cfg(&mut rng, with_apps, true);
     rep.evaluations += 1;
     rep.cur_case = format!("ring {} seed {}", idx, seed);
